@@ -132,12 +132,7 @@ func loadCorpus(dir string) [][]Op {
 	return out
 }
 
-func signature(ops []Op, dv *Divergence) string {
-	kind := strings.Fields(dv.Op.Line)[0]
-	ic, _ := outcomeClass(dv.Impl)
-	mc, _ := outcomeClass(dv.Model)
-	return fmt.Sprintf("%s impl=%s model=%s", kind, ic, mc)
-}
+func signature(ops []Op, dv *Divergence) string { return divSig(dv) }
 
 func runSuite(c *Ctx, s Suite) []Finding {
 	if s.Custom != nil {
@@ -146,7 +141,7 @@ func runSuite(c *Ctx, s Suite) []Finding {
 	var findings []Finding
 	var fmu sync.Mutex
 	addFinding := func(ops []Op, dv *Divergence) {
-		sops, sdv := shrink(s.MkExec, ops, s.Canon, s.Classify, dv.S)
+		sops, sdv := shrink(s.MkExec, ops, s.Canon, s.Classify, dv.S, divSig(dv))
 		if sdv == nil {
 			sops, sdv = ops[:dv.Index+1], dv
 		}
